@@ -235,6 +235,39 @@ RUN_EVENTS = RA([
     ("run_manual_silent", "manual_threads_silent", "OpenCircuit / CloseCircuit tell the run collectors nothing")])
 RUN_LIVE = RA([("run_never_deadlocks", "never_deadlocks", "whole calls racing transitions never deadlock")])
 
+# ---- hystrix / simplelogic / default factories (units GoHFac*)
+HFAC_LAYERS = T("GoHFacLayers", [
+  ("tie_hfac_createCloser", "CM.GoTie.GoHFacLayers.go_createCloser_eq", "`Factory.createCloser` hands CloserFactory `layer`: last constructor > … > first > factory-wide"),
+  ("tie_hfac_createOpener", "CM.GoTie.GoHFacLayers.go_createOpener_eq", "… the same for the opener's config"),
+  ("tie_hfac_Configure", "CM.GoTie.GoHFacLayers.go_Configure_eq", "`Factory.Configure` sets exactly the two factories"),
+  ("tie_hfac_layer_sleep", "CM.GoTie.GoHFacLayers.layerC_SleepWindow", "field by field: the first SET value in precedence order"),
+  ("tie_hfac_layer_buckets", "CM.GoTie.GoHFacLayers.layerO_NumBuckets", "… for the opener")])
+HFAC_CLOSER = T("GoHFacCloser", [
+  ("tie_hfac_CloserFactory", "CM.GoTie.GoHFacCloser.go_CloserFactory_eq", "`CloserFactory(cfg)` packages cfg"),
+  ("tie_hfac_CloserFactory_apply", "CM.GoTie.GoHFacCloser.go_CloserFactory_apply_eq", "each call: a NEW closer configured with cfg merged with the defaults"),
+  ("tie_hfac_CloserFactory_fresh", "CM.GoTie.GoHFacCloser.calls_eq", "n calls give n different new objects"),
+  ("tie_hfac_closer_fields", "CM.GoTie.GoHFacCloser.built_fields", "the gate really has the configured sleep window / attempts")])
+HFAC_CHAIN = T("GoHFacChain", [
+  ("tie_hfac_sleep_precedence", "CM.GoTie.GoHFacChain.built_sleep", "sleep window: last ctor > … > factory-wide > 5 s"),
+  ("tie_hfac_pct_precedence", "CM.GoTie.GoHFacChain.builtObj_pct", "error threshold: … > 50"),
+  ("tie_hfac_vol_precedence", "CM.GoTie.GoHFacChain.builtObj_vol", "volume threshold: … > 20"),
+  ("tie_hfac_geometry", "CM.GoTie.GoHFacChain.builtObj_geometry", "window geometry")])
+HFAC_OPENER = T("GoHFacOpenerSet", [
+  ("tie_hfac_opener_live", "CM.GoTie.GoHFacOpenerSet.go_SetConfigThreadSafe_eq", "both thresholds published"),
+  ("tie_hfac_opener_rebuild", "CM.GoTie.GoHFacOpenerSet.go_SetConfigNotThreadSafe_eq", "both counters rebuilt at ONE clock reading, each its own"),
+  ("tie_hfac_opener_rebuild_ok", "CM.GoTie.GoHFacOpenerSet.setNTS_ok", "… spelled out; = HOpener.new")]) + T("GoHFacOpener", [
+  ("tie_hfac_OpenerFactory", "CM.GoTie.GoHFacOpener.go_OpenerFactory_eq", "`OpenerFactory(cfg)` packages cfg"),
+  ("tie_hfac_OpenerFactory_apply", "CM.GoTie.GoHFacOpener.go_OpenerFactory_apply_eq", "each call: a NEW opener configured with cfg merged with the defaults"),
+  ("tie_hfac_OpenerFactory_fresh", "CM.GoTie.GoHFacOpener.calls_eq", "n calls give n different objects with their own counters"),
+  ("tie_hfac_opener_model", "CM.GoTie.GoHFacOpener.builtObj_model", "= HOpener.new with the merged settings"),
+  ("tie_hfac_opener_method", "CM.GoTie.GoHFacOpener.m_SetConfigNotThreadSafe_is_method", "the primitive is the translated method body")])
+HFAC_MISC = T("GoHFacConsec", [
+  ("tie_hfac_consec_apply", "CM.GoTie.GoHFacConsec.go_ConsecutiveErrOpenerFactory_apply_eq", "each call: a NEW ConsecutiveErrOpener with the configured threshold (10 by default)"),
+  ("tie_hfac_consec_fresh", "CM.GoTie.GoHFacConsec.calls_eq", "n calls, n objects")]) + T("GoHFacNever", [
+  ("tie_hfac_neverOpens", "CM.GoTie.GoHFacNever.go_neverOpensFactory_eq", "default opener = neverOpens{}"),
+  ("tie_hfac_neverCloses", "CM.GoTie.GoHFacNever.go_neverClosesFactory_eq", "default closer = neverCloses{}")]) + T("GoHFacNow", [
+  ("tie_hfac_cfg_now", "CM.GoTie.GoHFacNow.go_now_eq", "`ConfigureOpener.now` = one reading of the configured clock, wall clock when nil")])
+
 # ---- K6: interference ties (CircuitProofs/GoTie/I_*): the bodies translated over primitives in which an arbitrary move of the
 # other goroutines precedes every atomic / lock operation take exactly the steps of the small-step model's thread
 K6_CORE = [(("tie_k6_thread_view", "CM.GoTie.ICore.thread_view", "every schedule of any system, seen from one thread, is a run of that thread alone against SOME oracle: what is proved for every oracle covers every schedule"), "I_Core")]
@@ -263,7 +296,7 @@ K6_CALL = [((a, "CM.GoTie.ICall." + t, d), "I_Call") for a, t, d in [
 
 PROPS = {
     "C01": ("load shedding: who is admitted is decided by `allowNewRun` / `run`",
-            [C("IsOpen"), C("allowNewRun"), RUN] + NEVER + ERR_OPEN + K6_CALL + K6_TRANS + K6_CORE + RUN_C01 + RUN_EVENTS[:1] + RUN_VIEWS[:1] + RUN_LIVE),
+            [C("IsOpen"), C("allowNewRun"), RUN] + NEVER + ERR_OPEN + K6_CALL + K6_TRANS + K6_CORE + RUN_C01 + RUN_EVENTS[:1] + RUN_VIEWS[:1] + RUN_LIVE + HFAC_CLOSER[:3] + HFAC_LAYERS[:1]),
     "C02": ("the built-in openers' method bodies, translated from today's opener.go / closers.go, are the model's functions",
             T("GoHOpener", evs("GoHOpener", "HOpener.onRun") + [
                 ("tie_GoHOpener_Opened", "CM.GoTie.GoHOpener.go_Opened_eq", "`Opened` resets both rolling counters"),
@@ -276,14 +309,14 @@ PROPS = {
                 ("tie_GoConsec_Prevent", "CM.GoTie.GoConsec.go_Prevent_eq", "`Prevent` never vetoes"),
                 ("tie_GoConsec_ShouldOpen", "CM.GoTie.GoConsec.go_ShouldOpen_eq", "`ShouldOpen` compares the run of errors with the threshold"),
                 ("tie_GoConsec_SetConfigThreadSafe", "CM.GoTie.GoConsec.go_SetConfigThreadSafe_eq", "a live reconfiguration replaces the threshold only"),
-                ("tie_GoConsec_SetConfigNotThreadSafe", "CM.GoTie.GoConsec.go_SetConfigNotThreadSafe_eq", "so does the construction-time one")]) + OPENER_CFG),
+                ("tie_GoConsec_SetConfigNotThreadSafe", "CM.GoTie.GoConsec.go_SetConfigNotThreadSafe_eq", "so does the construction-time one")]) + OPENER_CFG + HFAC_OPENER + HFAC_CHAIN[1:] + HFAC_MISC + HFAC_LAYERS[1:2]),
     "C03": ("the hystrix closer's method bodies (closer.go) and its gate (timedcheck.go) are the model's functions",
             T("GoHCloser", evs("GoHCloser", "HCloser.onRun") + [
                 ("tie_GoHCloser_Opened", "CM.GoTie.GoHCloser.go_Opened_eq", "`Opened` zeroes the successes and starts the sleep window"),
                 ("tie_GoHCloser_Closed", "CM.GoTie.GoHCloser.go_Closed_eq", "`Closed` likewise"),
                 ("tie_GoHCloser_Allow", "CM.GoTie.GoHCloser.go_Allow_eq", "`Allow` is the gate's `Check`"),
                 ("tie_GoHCloser_ShouldClose", "CM.GoTie.GoHCloser.go_ShouldClose_eq", "`ShouldClose` compares the successes in a row with the required number")]) + TC +
-            [C("close"), C("checkSuccess")] + CLOSER_CFG + K6_TC + TC_HOOK),
+            [C("close"), C("checkSuccess")] + CLOSER_CFG + K6_TC + TC_HOOK + HFAC_CLOSER + HFAC_CHAIN[:1] + HFAC_LAYERS[:1]),
     "C04": ("the gauges and limits: `throttleConcurrentCommands`, the deferred decrements in `run` / `fallback`, the published limits",
             [C("throttleConcurrentCommands"), C("ConcurrentCommands"), C("ConcurrentFallbacks"), RUN, FALLBACK] + LIVECFG + ERR_LIMIT + ATOM_I64 + RUN_C04 + RUN_EVENTS[:1] + RUN_VIEWS[1:]),
     "C05": ("the classification chain of `run`",
@@ -293,7 +326,7 @@ PROPS = {
     "C08": ("overrides and pass-through: `IsOpen`, `allowNewRun`, the transitions, `Execute`'s Disabled branch, the published flags",
             [C("IsOpen"), C("isEmptyOrNil"), C("allowNewRun"), C("openCircuit"), C("close"), C("attemptToOpen"), EXECUTE] + LIVECFG + SETCFG + ATOM_BOOL + CIRC_MISC),
     "C09": ("transitions and their notifications",
-            [C("IsOpen"), C("openCircuit"), C("close"), C("attemptToOpen"), C("OpenCircuit"), C("CloseCircuit"), C("checkSuccess"), C("checkErrFailure"), C("checkErrTimeout")] + FAN_CIRC + SETCFG + ATOM_BOOL + K6_TRANS + K6_CORE + CTOR),
+            [C("IsOpen"), C("openCircuit"), C("close"), C("attemptToOpen"), C("OpenCircuit"), C("CloseCircuit"), C("checkSuccess"), C("checkErrFailure"), C("checkErrTimeout")] + FAN_CIRC + SETCFG + ATOM_BOOL + K6_TRANS + K6_CORE + CTOR + HFAC_CLOSER[2:3] + HFAC_OPENER[5:6]),
     "C10": ("panics: the deferred calls of `run` and `fallback` run on every exit", [RUN, FALLBACK, EXECUTE] + CIRC_MISC + RUN_EVENTS[:1] + RUN_C04[3:4] + RUN_LIVE),
     "C11": ("reconfiguration: what each SetConfigThreadSafe writes (circuit, hystrix opener, hystrix closer, SLO tracker) — every setting, nothing else",
             SETCFG + LIVECFG + OPENER_CFG + CLOSER_CFG + SLO_CFG),
@@ -303,7 +336,7 @@ PROPS = {
     "C14": ("the counter under interference: every atomic step of rolling_counter.go / rolling_bucket.go is the small-step model's", K6_RC + K6_CORE + ATOM_I64),
     "C15": ("rolling_percentile.go: the ring of circular buffers is the model `RP` / `DSlot`, the snapshot's numbers are the model `SD`", RPT + SD + FSNEW_RP),
     "C16": ("the gate: timedcheck.go's method bodies are the model `TC`", TC + K6_TC + K6_CORE + ATOM_BOOL + ATOM_I64 + TC_HOOK),
-    "C17": ("the registry: manager.go's CreateCircuit / GetCircuit / MustCreateCircuit are the model `Mgr`", MGR + STATFACTORY + STATSFIND + MGR_ALL + CTOR),
+    "C17": ("the registry: manager.go's CreateCircuit / GetCircuit / MustCreateCircuit are the model `Mgr`", MGR + STATFACTORY + STATSFIND + MGR_ALL + CTOR + HFAC_LAYERS),
     "C20": ("the collectors' method bodies, translated from today's rolling.go / responsetime.go, are the model's functions",
             T("GoRunStats", evs("GoRunStats", "Cons.RunStats.onRun") + [
                 ("tie_GoRunStats_ErrorsAt", "CM.GoTie.GoRunStats.go_ErrorsAt_eq", "errors = failures + timeouts, both read at the same instant"),
@@ -336,6 +369,9 @@ UNITS = {"F_": "gocircuit", "All": "gocircuit", "T_GoHOpener": "gohopener", "T_G
          "T_GoCtor": ["goctor", "gosetcfg", "goslocfg"], "T_GoCtorSet": ["goctorset", "gosetcfg"], "T_GoManagerAll": ["gomanagerall", "gosetcfg", "goslocfg"],
          "T_GoTCHook": ["gotchook", "gotimedcheck", "gosetcfg", "goslocfg"], "T_GoSloFactory": ["goslofactory", "goslocfg", "gosetcfg"],
          "T_GoCircMisc": ["gocircmisc", "gosetcfg", "goslocfg"], "T_GoRollingStore": ["gorollingstore", "gosetcfg", "goslocfg"],
+         "T_GoHFacLayers": ["gohfaclayers"], "T_GoHFacCloser": ["gohfaccloser"], "T_GoHFacOpener": ["gohfacopener", "gohfacopenerset"], "T_GoHFacOpenerSet": ["gohfacopenerset"],
+         "T_GoHFacNow": ["gohfacnow"], "T_GoHFacConsec": ["gohfacconsec"], "T_GoHFacNever": ["gohfacnever"],
+         "T_GoHFacChain": ["gohfaclayers", "gohfaccloser", "gohfacopener", "gohfacopenerset"],
          "I_Core": [], "Props.RunAll": [], "I_RC": ["gorciclear", "gorciadv", "gorciops"], "I_TC": "gotci", "I_Call": "gocalli",
          "T_GoLiveLogic": ["goneveropens", "gonevercloses", "gohopenercfg", "gohclosercfg", "goslocfg"]}
 
